@@ -17,6 +17,7 @@ def history(seed, length, ncoll=3, nkeys=12, nvals=6):
     for i in range(nkeys):
         n = klens[i] if i < len(klens) else rnd.randint(1, 255)
         keys[f"K{i}"] = ((f"k{i}_" * 200)[:n]) if i % 4 != 3 else ("é" * 200)[: max(1, n // 2)]
+    keys[f"K{nkeys - 1}"] = "é" * 200        # 200 characters, 400 bytes: too long for a UKV key although len(key) <= 255
     vlens = [0, 1, 3, 100, 4096, 70000]
     vals = {f"V{i}": bytes(rnd.getrandbits(8) for _ in range(vlens[i] if i < len(vlens) else rnd.randint(0, 2000))) for i in range(nvals)}
     rv = {v: k for k, v in vals.items()}
@@ -86,8 +87,11 @@ def history(seed, length, ncoll=3, nkeys=12, nvals=6):
                     log("end", c, exc_name(e))
         for c in list(cms):
             cm = cms.pop(c)
-            cm.__exit__(None, None, None)
-            log("end", c, "ok")
+            try:
+                cm.__exit__(None, None, None)
+                log("end", c, "ok")
+            except Exception as e:
+                log("end", c, exc_name(e))
     finally:
         for c in coll.values():
             try:
